@@ -102,10 +102,29 @@ def main(tier, seed, replay=None):
             body.append("Eval vm_compute in (concat (map (fun l => (-1)%Z :: l) [" + "; ".join(names) + "])).")
             files.append((f"cases_{len(files)}", "\n".join(body))); metas.append(cur)
         body = list(HEADER); names = []; cur = []
-    for i in range(ncirc):
+    nwide = 2 if tier == "quick" else 10
+    def wide_mixture():
+        """two or three product components over 180-260 Bernoulli variables: with ~95% of the variables observed the evidence
+        likelihood of every component is far below the smallest positive single-precision number, its logarithm is not"""
+        from deeprob.spn.structure.node import Sum as _S, Product as _P, assign_ids as _aid
+        from deeprob.spn.structure.leaf import Bernoulli as _B
+        nv = int(rs.randint(180, 261)); k = int(rs.randint(2, 4))
+        comps = [_P(children=[_B(v, float(rs.randint(3, 14) / 16.0)) for v in range(nv)]) for _ in range(k)]
+        r_ = _S(children=comps, weights=np.array(G.dyadic_weights(rs, k), dtype=np.float32)); _aid(r_)
+        pref = comps[int(rs.randint(1, k))]                 # evidence drawn from a component that is not the first
+        rows_ = []
+        for _ in range(6):
+            hide = rs.rand(nv) < 0.05
+            rows_.append({v: (None if hide[v] else int(rs.rand() < float(pref.children[v].p))) for v in range(nv)})
+        return r_, rows_
+    for i in range(ncirc + nwide):
         kinds = [("bern",), ("bern", "cat")][i % 2]
-        root = c01.gen_circuit(rs, i, tier, kinds=kinds, clt=0.3) if i % 8 != 6 else zero_weight_stress(rs)
-        if i % 8 == 6:
+        wide_rows = None
+        if i >= ncirc:
+            root, wide_rows = wide_mixture()
+        else:
+            root = c01.gen_circuit(rs, i, tier, kinds=kinds, clt=0.3) if i % 8 != 6 else zero_weight_stress(rs)
+        if i % 8 == 6 or i >= ncirc:
             pass
         elif i % 4 == 0:
             G.skew_params(root, rs)     # zero-weight children, extreme leaf parameters
@@ -113,7 +132,7 @@ def main(tier, seed, replay=None):
             G.skew_params(root, rs, p_zero_w=0.7, p_extreme=1.0, hard=False)
         tab = bern_one_first(G.Table(root))
         dom = tab.domains(); scope = sorted(tab.root_scope()); width = max(scope) + 1
-        rows = c01.missing_rows(rs, scope, dom, tier)
+        rows = c01.missing_rows(rs, scope, dom, tier) if wide_rows is None else wide_rows
         X = np.array([G.np_row(c, width, {}) for c in rows], dtype=np.float32)
         X0 = X.copy()
         fp0 = G.fingerprint(root)
